@@ -181,7 +181,7 @@ def cases(tier: str, seed: int):
     for a, b in itertools.product(pool, repeat=2):
         out.append(([a, b], False, 'pairs'))
     for t in itertools.product(range(len(pool)), repeat=3):
-        if tier == 'thorough' or len(set(t)) == 3:
+        if True:
             out.append(([pool[i] for i in t], True, 'triples'))
     # contracts x declarers; results
     for bid in RA.BIDS:
@@ -191,6 +191,13 @@ def cases(tier: str, seed: int):
         out.append(([var(contract=[bid, 2], flags='xx-only', declarer=SEATS[RA.BIDS.index(bid) % 4], result=RA.BIDS.index(bid) % 14)], False, 'contract-xx-flag-only'))
     for d, r in itertools.product(SEATS, range(14)):
         out.append(([var(declarer=d, result=r)], False, 'declarer-result'))
+    # full product contract x declarer x result (thorough: x vulnerability), two results per document
+    vs = VULS if tier == 'thorough' else VULS[:1]
+    for bid in RA.BIDS:
+        for dbl, d, v in itertools.product((0, 1, 2), SEATS, vs):
+            docs = [var(contract=[bid, dbl], declarer=d, result=r, vul=v, num=r + 1) for r in range(14)]
+            for i in range(0, 14, 2):
+                out.append((docs[i:i + 2], bool(i % 4), 'contract-product'))
     for po in ('passout', 'passout-pass'):
         for v in VULS:
             out.append(([var(contract=po, vul=v), var(1)], True, 'passedout'))
